@@ -164,6 +164,23 @@ def uaGrow (s : SSt) (a : Nat) (newlen : Nat → Nat) : List Alt :=
       [{ ok := false, st := s },
        { ok := true, st := { s with objs := s.objs.set b { ob with elems := List.replicate (newlen ob.elems.length) 0 } } }]
 
+/-- content type of the buffer a handle names -/
+def kindOf (s : SSt) (o : Option Nat) : Option OKind := o.map fun i => (s.objs.getD i default).kind
+
+/-- **the allowed outcomes of one operation of a history** (what the driver prints in the S column of part `r`) -/
+def alts (s : SSt) : Op → List Alt
+  | .create k n els => [{ ok := true, st := { s with objs := s.objs ++ [{ kind := k, ext := n, elems := els }] } }]
+  | .take h o => take s h o
+  | .copy h g => copy s h g
+  | .drop h => drop s h
+  | .assignMeta h src => assign s h src false
+  | .assignArr h src =>
+    assign s h src (src.isSome && (s.hnd.getD h none).isSome && decide (kindOf s src ≠ kindOf s (s.hnd.getD h none)))
+  | .extAdd o => extAdd s o
+  | .extUnref o => extUnref s o
+  | .detach h _ => detach s h
+  | .reserve h len => reserve s h len
+
 /-! ### handles owned by objects (C++ `reference<T>` members): slot `nroot + o` belongs to object `o` -/
 
 /-- objects without a reference die, the handle a dead object owns goes away, which may leave its referent
